@@ -170,12 +170,12 @@ def cmp_value(path, mv, iv, out, stats, lax_kind=False):
             if iv.dtype.kind != "O":
                 out.append("%s: array dtype %s, expected object (template parameters inside)" % (path, iv.dtype))
                 return
-        elif want_kind and iv.dtype.kind != want_kind:
+        elif want_kind and iv.dtype.kind != want_kind and not lax_kind:
             out.append("%s: array dtype %s, expected element type %s" % (path, iv.dtype, mv["ty"]))
             return
         flat = iv.reshape(-1)
         for i, (a, b) in enumerate(zip(mv["e"], flat)):
-            cmp_value("%s[%d,%d]" % (path, i // mv["c"], i % mv["c"]), a, b, out, stats, lax_kind=has_sym)
+            cmp_value("%s[%d,%d]" % (path, i // mv["c"], i % mv["c"]), a, b, out, stats, lax_kind=has_sym or lax_kind)
     else:
         out.append("%s: unknown model kind %s" % (path, k))
 
